@@ -48,7 +48,11 @@ Inductive ty :=
 | TTupV (t: ty)                          (* Tuple[t, ...] *)
 | TTup (ts: list ty)                     (* Tuple[t1..tn], NamedTuple, TypedDict-like records *)
 | TMap (o: origin) (kt vt: ty)           (* Dict/OrderedDict/Mapping/DefaultDict/Counter *)
-| TDC (c: nat).                          (* dataclass number c of the class table *)
+| TDC (c: nat)                           (* dataclass number c of the class table *)
+| TUnion (ts: list ty).                  (* Union / constrained TypeVar; Optional[Union[..]] = TOpt (TUnion ..).
+                                            Modelled on the decode side; on the encode side only the
+                                            "all members are the identity" test is modelled and no value
+                                            conforms to a union (unions are outside the encode theorems) *)
 
 Inductive lv :=
 | VAtom (z: Z)
@@ -100,7 +104,8 @@ Inductive ir :=
 | ISeqComp (e: ir)                 (* [e for value in x] *)
 | IMapComp (ke ve: ir)             (* {ke: ve for key, value in x.items()} *)
 | ITup (es: list ir)               (* [e0(x[0]), e1(x[1]), ...] *)
-| ICall (c: nat) (fw: bool).       (* x.__mashumaro_to_dict__(dialect=dialect if fw) *)
+| ICall (c: nat) (fw: bool)        (* x.__mashumaro_to_dict__(dialect=dialect if fw) *)
+| IUnion.                          (* generated union packer method: not modelled *)
 
 Definition is_id (e: ir) : bool := match e with IId => true | _ => false end.
 
@@ -137,6 +142,7 @@ Section Compile.
     | TTup ts => ITup (map cp ts)
     | TMap o kt vt => map_expr N o (cp kt) (cp vt)
     | TDC c => ICall c (hsup && (E.(e_ct) c).(c_sup))
+    | TUnion ts => if forallb is_id (map cp ts) then IId else IUnion   (* pack_union: a single "value" packer *)
     end.
 End Compile.
 
@@ -236,6 +242,7 @@ Section RunPack.
                 zip_st (fun x t => run_pack x call' (cp E N' k.(c_sup) t)) k.(c_fields) fs (S n) in
               (VMap KDict n (as_items ys), n')
           | _ => (v, n) end
+      | IUnion => (v, n)
       end.
 End RunPack.
 
@@ -266,6 +273,7 @@ Section Conf.
           | VObj c' _ fs =>
               Nat.eqb c c' && zip_all conforms (E.(e_ct) c').(c_fields) fs
           | _ => false end
+      | TUnion _ => false
       end.
 End Conf.
 
@@ -323,6 +331,7 @@ Section ConvFree.
     | TSeq o t' => inN N o && conv_free t'
     | TMap o kt vt => inN N o && conv_free kt && conv_free vt
     | TTupV _ | TTup _ | TDC _ => false
+    | TUnion ts => forallb conv_free ts
     end.
 
   (* the generator's test: the element expression is the bare name *)
@@ -371,6 +380,7 @@ Section ByRef.
               let N' := effN E call' k in
               zip_app (fun x t' => byref x call' N' k.(c_sup) t') k.(c_fields) fs
           | _ => [] end
+      | TUnion _ => []
       end.
 End ByRef.
 
@@ -384,7 +394,32 @@ Inductive uir :=
 | USeq (k: kind) (e: uir)          (* [..], set([..]), frozenset([..]), deque([..]), tuple([..]) *)
 | UMap (k: kind) (ke ve: uir)      (* {..}, OrderedDict({..}), defaultdict(f, {..}), Counter({..}) *)
 | UTup (es: list uir)              (* tuple([e0(x[0]), ...]) *)
-| UCall (c: nat).                  (* C.__mashumaro_from_dict__(value) *)
+| UCall (c: nat)                   (* C.__mashumaro_from_dict__(value) *)
+| UUnion (ms: list (nat * uir)).   (* union method: the member whose wire class fits decodes the value *)
+
+(* wire classes by which the members of a union are told apart: scalars are matched by
+   exact type, a mapping is not iterated as a list (.items()), a list has no .items() *)
+Definition wcls (w: lv) : nat :=
+  match w with VAtom _ | VLeaf _ => 0 | VNone => 1 | VSeq _ _ _ => 2 | VMap _ _ _ => 3 | VOpq _ => 4 | VObj _ _ _ => 5 end.
+Definition tcls (t: ty) : nat :=
+  match t with
+  | TAtom | TLeaf _ => 0
+  | TOpt _ => 1
+  | TSeq _ _ | TTupV _ | TTup _ => 2
+  | TMap _ _ _ | TDC _ => 3
+  | TAny | TPass => 9          (* accepts everything *)
+  | TUnion _ => 7              (* typing flattens nested unions: never a direct member *)
+  end.
+Definition cls_fits (c: nat) (w: lv) : bool := Nat.eqb c 9 || Nat.eqb c (wcls w).
+
+Section Pick.
+  Context {A B: Type} (m: A -> bool) (f: A -> B) (d: B).
+  Fixpoint pick (l: list A) : B :=
+    match l with
+    | [] => d
+    | x :: r => if m x then f x else pick r
+    end.
+End Pick.
 
 Definition seq_kind (o: origin) : kind :=
   match o with
@@ -411,6 +446,7 @@ Fixpoint cu (t: ty) : uir :=
   | TTup ts => UTup (map cu ts)
   | TMap o kt vt => UMap (map_kind o) (cu kt) (cu vt)
   | TDC c => UCall c
+  | TUnion ts => UUnion (map (fun t' => (tcls t', cu t')) ts)
   end.
 
 Section RunUnpack.
@@ -455,6 +491,10 @@ Section RunUnpack.
                        (E.(e_ct) c).(c_fields) kvs (S n) in
               (VObj c n ys, n')
           | _ => (w, n) end
+      | UUnion ms =>
+          pick (fun ce : nat * uir => match ce with (c, _) => cls_fits c w end)
+               (fun ce : nat * uir => match ce with (_, e') => on_ir e' n end)
+               (VNone, n) ms
       end.
 
   (* wire conformance: the basic form a decoder of type t accepts *)
@@ -479,6 +519,7 @@ Section RunUnpack.
           | VMap _ _ kvs =>
               zip_all (fun kv t' => match kv with (_, x) => wconforms x t' end) (E.(e_ct) c).(c_fields) kvs
           | _ => false end
+      | TUnion ts => pick (fun t' => cls_fits (tcls t') w) on_ty false ts
       end.
 
   (* input sub-values at Any / pass_through positions *)
@@ -503,6 +544,7 @@ Section RunUnpack.
           | VMap _ _ kvs =>
               zip_app (fun kv t' => match kv with (_, x) => anyref x t' end) (E.(e_ct) c).(c_fields) kvs
           | _ => [] end
+      | TUnion ts => pick (fun t' => cls_fits (tcls t') w) on_ty [] ts
       end.
 End RunUnpack.
 
